@@ -450,6 +450,10 @@ def do_replay(chk, path):
     if need != core.variant() or \
             bool(sys.flags.optimize) != ('-O' in VARIANT_FLAGS.get(need, [])):
         env = dict(os.environ, VERIF_VARIANT=need)
+        env.update(VARIANT_ENV.get(need, {}))
+        if not need:
+            for k in VARIANT_ENV.get(core.variant(), {}):
+                env.pop(k, None)
         sys.stdout.flush()
         os.execve(PY, [PY] + VARIANT_FLAGS.get(need, []) + [
             os.path.join(VERIF, 'check'), chk.ID, '--replay', path], env)
@@ -493,6 +497,10 @@ def fresh_replay_ok(pid, path):
 # ------------------------------------------------------------- variants
 
 VARIANT_FLAGS = {'strict': ['-O']}
+# ... and a process that does not live in UTC: the zone is in the environment
+# BEFORE the interpreter starts, so module-level code of the SUT sees it
+# (a half-hour offset with DST in both hemispheres' sense of "winter")
+VARIANT_ENV = {'strict': {'TZ': 'America/St_Johns'}}
 VARIANT_SHARE = 8      # one strict run for every 8 default ones
 
 
@@ -518,6 +526,7 @@ def run_variant_pass(chk, tier, batch_seed, runs, workers, start, args):
     if args.no_minimise:
         cmd.append('--no-minimise')
     env = dict(os.environ, VERIF_VARIANT='strict', VERIF_SEED=str(batch_seed))
+    env.update(VARIANT_ENV['strict'])
     p = subprocess.run(cmd, env=env, capture_output=True, text=True)
     try:
         with open(tmp) as f:
@@ -775,7 +784,8 @@ def _main(argv=None):
     if var is not None:
         cov['interpreter_variants'] = {
             'default': {'runs': out['done']},
-            'strict (python -O, warnings raised as errors)': {
+            'strict (python -O, warnings raised as errors, TZ=%s)' %
+            VARIANT_ENV['strict']['TZ']: {
                 'runs': var.get('done', 0),
                 'run_indexes': var.get('indexes'),
                 'batch_digest': var.get('digest'),
@@ -783,6 +793,8 @@ def _main(argv=None):
                 'violations': len(var.get('viol_lines', []))}}
         cov['faults_fired']['env_python_optimize_runs'] = var.get('done', 0)
         cov['faults_fired']['env_warnings_as_errors_runs'] = \
+            var.get('done', 0)
+        cov['faults_fired']['env_process_zone_not_utc_runs'] = \
             var.get('done', 0)
     if n_distinct >= MAX_DISTINCT:
         cov['distinct_note'] = 'distinct set capped at %d' % MAX_DISTINCT
